@@ -463,6 +463,22 @@ static int32_t fsr_statistics(struct jls_core_s * self, uint16_t signal_id,
     return 0;
 }
 
+// The samples to convert from a data chunk: the ones it holds, not a whole block
+// (the chunk buffer is only as large as the largest chunk read so far).
+// The converters of the sub-byte types work on whole bytes.
+static uint32_t fsr_data_sample_count(const struct jls_signal_def_s * signal_def, const struct jls_fsr_data_s * s) {
+    uint32_t count = s->header.entry_count;
+    uint32_t bits = s->header.entry_size_bits;
+    if (count > signal_def->samples_per_data) {
+        count = signal_def->samples_per_data;
+    }
+    if ((bits > 0) && (bits < 8)) {
+        uint32_t per_byte = 8 / bits;
+        count = ((count + per_byte - 1) / per_byte) * per_byte;
+    }
+    return count;
+}
+
 int32_t jls_core_fsr_statistics(struct jls_core_s * self, uint16_t signal_id,
                               int64_t start_sample_id, int64_t increment,
                               double * data, int64_t data_length) {
@@ -523,7 +539,7 @@ int32_t jls_core_fsr_statistics(struct jls_core_s * self, uint16_t signal_id,
         JLS_LOGE("invalid data entry size: %d", (int) s->header.entry_size_bits);
         return JLS_ERROR_PARAMETER_INVALID;
     }
-    jls_dt_buffer_to_f64(&s->data[0], signal_def->data_type, self->f64_sample_buf->start, signal_def->samples_per_data);
+    jls_dt_buffer_to_f64(&s->data[0], signal_def->data_type, self->f64_sample_buf->start, fsr_data_sample_count(signal_def, s));
     double * src = &self->f64_sample_buf->start[0];
     double * src_end = &self->f64_sample_buf->start[s->header.entry_count];
     if (start_sample_id > chunk_sample_id) {
@@ -545,7 +561,7 @@ int32_t jls_core_fsr_statistics(struct jls_core_s * self, uint16_t signal_id,
             ROE(jls_core_rd_fsr_data0(self, signal_id, start_sample_id));
             s = (struct jls_fsr_data_s *) self->buf->start;
             chunk_sample_id = s->header.timestamp;
-            jls_dt_buffer_to_f64(&s->data[0], signal_def->data_type, self->f64_sample_buf->start, signal_def->samples_per_data);
+            jls_dt_buffer_to_f64(&s->data[0], signal_def->data_type, self->f64_sample_buf->start, fsr_data_sample_count(signal_def, s));
             src = &self->f64_sample_buf->start[0];
             src_end = &self->f64_sample_buf->start[s->header.entry_count];
         }
